@@ -592,6 +592,12 @@ func c17Runs(prog *load.Program) []ctRunSpec {
 			}
 		}
 		for _, fn := range []string{"newProjectivePointMultTable", "lookupProjectivePoint", "lookupAffinePoint"} {
+			if fn == "newProjectivePointMultTable" && absint.FindFunc(prog.SSA, models.Mod+"."+fn) == nil {
+				// the table builder may be a method of the table type instead (then it is among the methods above)
+				if b, inPlace := findTableBuilder(prog); b != nil && inPlace {
+					continue
+				}
+			}
 			out = append(out, ctRunSpec{key: "point/" + fn, fn: models.Mod + "." + fn, set: fieldSet(), taintAll: true})
 		}
 	}
